@@ -27,6 +27,28 @@ def cases(O):
         cases.append({"id": "c06r-%d" % i, "config": cfg, "calls": [{"code": code, "file": "r.js"}], "opts": {}})
     for k in (0, 1):
         cases += E.catalogue_cases(O.seed, n // 2, "c06cat%d" % k, reserved="__datadog_t_%d" % k, prefix="t")
+    # every syntactic position of a user identifier that carries the reserved prefix, next to operations that need temporaries
+    # (deterministic: the detection of a narrowed refusal check must not depend on sampling)
+    pos = ["delete o[%s]", "delete %s.p", "((p = %s) => p)()", "((p = %s) => { return p; })()", "`lit${'x'}${%s}`", "`${'x'}${%s}`", "q(%s)", "%s.p", "o[%s]", "({ %s })",
+           "({ k: %s }).k", "%s = 1", "[%s] = arr", "({ k: %s } = o)", "typeof %s", "void %s", "%s++", "new %s()", "%s`tpl`", "tag`p${%s}`", "(function () { return %s; })()",
+           "(() => %s)()", "class K { f = %s; }", "class K { static s = %s; }", "class K { m(p = %s) {} }", "function inner(%s) {}", "function inner(p = %s) {}",
+           "function %s() {}", "class %s {}", "var %s", "let %s = 1", "const { %s } = o", "const [ %s ] = arr", "try {} catch (%s) {}", "for (const %s of arr) {}", "for (%s in o) {}",
+           "%s: for (;;) { break; }", "import(%s)", "x = %s ? 1 : 2", "x = y ?? %s", "x = a?.[%s]", "x = a?.p(%s)", "super.m(%s)" if False else "o.m(%s)", "[...%s]", "q(...%s)",
+           "x = { ...%s }", "async () => { await %s; }", "function* g2() { yield %s; }", "%s += 'a'", "o[%s] += 'a'", "x = %s + f()", "x = f() + %s", "x = %s.trim()", "x = a.concat(%s)"]
+    ops = ["y = a + f();", "y = f() + g();", "y = `${a}${f()}`;", "y = a.concat(f());", "w += f();"]
+    k = 0
+    for pi, ptn in enumerate(pos):
+        for ni in (0, 1):
+            name = "__datadog_t_%d" % ni
+            stmt = ptn % name
+            if not stmt.endswith("}") and not stmt.endswith(";"):
+                stmt += ";"
+            for wrap in ("function f(a, o, q, arr, x, y, w){ %s %s }", "{ %s %s }", "function f(a, o, q, arr, x, y, w){ %s { %s } }", "function f(a, o, q, arr, x, y, w){ { %s } %s }"):
+                op = ops[(pi + ni + k) % len(ops)]
+                k += 1
+                code = wrap % ((stmt, op) if k % 2 else (op, stmt))
+                cases.append({"id": "c06pos-%d-%d-%d" % (pi, ni, k), "config": vlib.default_config(localVarPrefix="t"),
+                              "calls": [{"code": code, "file": "pos.js"}], "opts": {}})
     return cases
 
 
